@@ -23,6 +23,8 @@ class Cell(NullCell):
             # (extend copies bit by bit: the result is big-endian whatever the endianness of the argument)
             plain, bits = bits, TvmBitarray(1023)
             bits.extend(plain)
+        if len(bits) > 1023 or len(refs) > 4:
+            raise CellError('a cell holds at most 1023 data bits and 4 references')
         self.bits: BitarrayLike = bits
         self.refs: list = refs
         self.type_: int = cell_type
